@@ -150,8 +150,10 @@ impl Serialize for Val {
 // ---------------------------------------------------------------------------------
 // recording serializer
 // ---------------------------------------------------------------------------------
+/// structured error: `code` is set by the recorder's injected failures and cannot be re-created
+/// through `Error::custom` (an impl that re-wraps the error loses it)
 #[derive(Debug, Clone, PartialEq)]
-pub struct RecErr(pub String);
+pub struct RecErr(pub String, pub u32);
 impl fmt::Display for RecErr {
     fn fmt(&self, f: &mut fmt::Formatter<'_>) -> fmt::Result {
         write!(f, "{}", self.0)
@@ -160,12 +162,12 @@ impl fmt::Display for RecErr {
 impl std::error::Error for RecErr {}
 impl ser::Error for RecErr {
     fn custom<T: fmt::Display>(m: T) -> Self {
-        RecErr(format!("custom:{}", m))
+        RecErr(format!("custom:{}", m), 0)
     }
 }
 impl de::Error for RecErr {
     fn custom<T: fmt::Display>(m: T) -> Self {
-        RecErr(format!("custom:{}", m))
+        RecErr(format!("custom:{}", m), 0)
     }
 }
 
@@ -173,6 +175,8 @@ impl de::Error for RecErr {
 pub struct Log {
     pub calls: Vec<String>,
     pub fail_at: usize,
+    /// what is_human_readable() answers (both answers are generated)
+    pub human: bool,
 }
 type Sh = Rc<RefCell<Log>>;
 
@@ -182,7 +186,7 @@ fn rec(l: &Sh, what: String) -> Result<(), RecErr> {
         g.calls.push(what);
         if g.fail_at != 0 && g.calls.len() == g.fail_at {
             let n = g.calls.len();
-            return Err(RecErr(format!("injected at call {}", n)));
+            return Err(RecErr(format!("injected at call {}", n), 7000 + n as u32));
         }
         Ok(())
     })
@@ -209,6 +213,9 @@ impl Serializer for RecSer {
     type SerializeMap = RecSer;
     type SerializeStruct = RecSer;
     type SerializeStructVariant = RecSer;
+    fn is_human_readable(&self) -> bool {
+        self.0.borrow().human
+    }
     prim!(serialize_bool, bool);
     prim!(serialize_i8, i8);
     prim!(serialize_i16, i16);
@@ -436,27 +443,30 @@ impl<'de, 'a> VariantAccess<'de> for EnumA<'a> {
         rec(&self.log, "newtype_variant".into())?;
         match self.v {
             Val::NewtypeVariant(x) => seed.deserialize(ValDe { v: x, log: self.log.clone() }),
-            _ => Err(RecErr("not a newtype variant".into())),
+            _ => Err(RecErr("not a newtype variant".into(), 1)),
         }
     }
     fn tuple_variant<V: Visitor<'de>>(self, _len: usize, visitor: V) -> Result<V::Value, RecErr> {
         rec(&self.log, "tuple_variant".into())?;
         match self.v {
             Val::TupleVariant(v) => visitor.visit_seq(SeqA { it: v.iter(), log: self.log.clone() }),
-            _ => Err(RecErr("not a tuple variant".into())),
+            _ => Err(RecErr("not a tuple variant".into(), 2)),
         }
     }
     fn struct_variant<V: Visitor<'de>>(self, _f: &'static [&'static str], visitor: V) -> Result<V::Value, RecErr> {
         rec(&self.log, "struct_variant".into())?;
         match self.v {
             Val::StructVariant(v) => visitor.visit_seq(SeqA { it: v.iter(), log: self.log.clone() }),
-            _ => Err(RecErr("not a struct variant".into())),
+            _ => Err(RecErr("not a struct variant".into(), 3)),
         }
     }
 }
 
 impl<'de, 'a> Deserializer<'de> for ValDe<'a> {
     type Error = RecErr;
+    fn is_human_readable(&self) -> bool {
+        self.log.borrow().human
+    }
     fn deserialize_any<V: Visitor<'de>>(self, visitor: V) -> Result<V::Value, RecErr> {
         rec(&self.log, "deserialize_any".into())?;
         let log = self.log.clone();
@@ -688,8 +698,11 @@ fn gen(s: &mut Src, depth: usize) -> Val {
     }
 }
 
+thread_local! {
+    static HUMAN: std::cell::Cell<bool> = const { std::cell::Cell::new(true) };
+}
 fn new_log(fail_at: usize) -> Sh {
-    Rc::new(RefCell::new(Log { calls: vec![], fail_at }))
+    Rc::new(RefCell::new(Log { calls: vec![], fail_at, human: HUMAN.with(|h| h.get()) }))
 }
 
 pub struct SerdeEngine;
@@ -710,6 +723,8 @@ impl Engine for SerdeEngine {
         let flat: Vec<u8> = c.ops.iter().flat_map(|o| o.iter().copied()).collect();
         let val = gen(&mut Src { b: &flat, i: 0 }, 0);
         let depth = val.depth();
+        let human = c.p(0) & 1 == 0;
+        HUMAN.with(|h| h.set(human));
         let mut tr = vec![];
         if trace {
             tr.push(format!("value: {:?}", val));
@@ -847,6 +862,55 @@ impl Engine for SerdeEngine {
                 viol::report_sig(P, "D.de-leak", "deserialize:net-leak".into(), format!("{} tracked blocks before, {} after dropping every result (fault at {})", before, after, k));
             }
         }
+        // ---- deserialize_in_place: the target handle becomes a fresh sole owner, a co-owner keeps the old value ----
+        {
+            let old = Val::U32(424242);
+            let mut target = Arc::new(old.clone());
+            let keeper = target.clone();
+            let l = new_log(0);
+            let r = track(|| <Arc<Val> as Deserialize>::deserialize_in_place(ValDe { v: &val, log: l.clone() }, &mut target)).0;
+            let expect = Val::deserialize(ValDe { v: &val, log: new_log(0) });
+            match (r, expect) {
+                (Ok(()), Ok(v)) => {
+                    if *target != v {
+                        viol::report_sig(P, "D.in-place-value", "Arc.deserialize_in_place:value".into(), "deserialize_in_place left a value different from what the value's own deserialiser yields".into());
+                    }
+                    if *keeper != old {
+                        viol::report_sig(P, "D.in-place-shared", "Arc.deserialize_in_place:shared".into(), format!("deserialize_in_place on a shared Arc changed the value seen through the other handle: {:?}", *keeper));
+                    }
+                    if Arc::ptr_eq(&target, &keeper) || Arc::count(&target) != 1 || Arc::count(&keeper) != 1 {
+                        viol::report_sig(P, "D.in-place-count", "Arc.deserialize_in_place:count".into(), format!("after deserialize_in_place on a shared Arc: same allocation {}, counts {} / {} (expected a fresh sole owner and the old allocation with one owner)", Arc::ptr_eq(&target, &keeper), Arc::count(&target), Arc::count(&keeper)));
+                    }
+                }
+                (Err(_), Err(_)) => {
+                    if *keeper != old || Arc::count(&keeper) > 2 {
+                        viol::report_sig(P, "D.in-place-shared", "Arc.deserialize_in_place:error".into(), "a failing deserialize_in_place disturbed the co-owner".into());
+                    }
+                }
+                (a, b) => viol::report_sig(P, "D.in-place-result", "Arc.deserialize_in_place:result".into(), format!("in place ok={} value ok={}", a.is_ok(), b.is_ok())),
+            }
+            drop(l);
+            // unique targets too (Arc and UniqueArc)
+            let mut t2 = Arc::new(Val::Unit);
+            let mut u2 = UniqueArc::new(Val::Unit);
+            let r2 = <Arc<Val> as Deserialize>::deserialize_in_place(ValDe { v: &val, log: new_log(0) }, &mut t2);
+            let r3 = <UniqueArc<Val> as Deserialize>::deserialize_in_place(ValDe { v: &val, log: new_log(0) }, &mut u2);
+            if let (Ok(()), Ok(()), Ok(v)) = (r2, r3, Val::deserialize(ValDe { v: &val, log: new_log(0) })) {
+                if *t2 != v || *u2 != v || Arc::count(&t2) != 1 {
+                    viol::report_sig(P, "D.in-place-value", "deserialize_in_place:unique".into(), "deserialize_in_place on a unique handle produced a different value / count".into());
+                }
+            }
+        }
+        // ---- two deserialisations of the same input are two fresh sole owners (no interning) ----
+        {
+            let a = Arc::<Val>::deserialize(ValDe { v: &val, log: new_log(0) });
+            let b = Arc::<Val>::deserialize(ValDe { v: &val, log: new_log(0) });
+            if let (Ok(a), Ok(b)) = (&a, &b) {
+                if Arc::ptr_eq(a, b) || Arc::count(a) != 1 || Arc::count(b) != 1 {
+                    viol::report_sig(P, "D.de-fresh", "Arc.deserialize:interned".into(), format!("two deserialisations of the same input share an allocation or are not sole owners (counts {} / {})", Arc::count(a), Arc::count(b)));
+                }
+            }
+        }
         // ---- concrete payload types through serde's own in-memory deserialisers ----
         concrete(c);
         let nontrivial = depth >= 2 || injected_inside;
@@ -863,6 +927,7 @@ impl Engine for SerdeEngine {
         if calls > 12 {
             labels.push(">12-serializer-calls");
         }
+        labels.push(if human { "is_human_readable=true" } else { "is_human_readable=false" });
         let _ = alloc::case_end();
         CaseReport { viols: viol::take(), nontrivial, labels, trace: tr }
     }
